@@ -18,8 +18,12 @@ MCReqs == {r1, r2}
 ReqSymmetry == Permutations(MCReqs)
 MCSegs == {"keep", "odd"}
 MCOneSrc == {"s1"}
+MCAllClasses == {"valid", "empty", "invalid", "absent"}
+MCRewrites == {"valid", "empty"}       \* new versions and truncations only (rewriting in place)
 
 (* the tabulated response function of HeimdallOps is RuleIndex!Probe on the version's rule set *)
 ASSUME \A src \in MCSrcs, k \in 1..6, seg \in TabSegs :
-          LET a == [c |-> VerName(k), rules |-> VerRules(k)] IN Resp(src, a, seg) = RespDirect(src, a, seg)
+          LET a == Version(VerName(k), VerRules(k))
+              t == Torn(Version(VerName(1), VerRules(1)), Version(VerName(k), VerRules(k)))
+          IN Resp(src, a, seg) = RespDirect(src, a, seg) /\ Resp(src, t, seg) = RespDirect(src, t, seg)
 =============================================================================
